@@ -679,6 +679,7 @@ pub fn gen_history(rng: &mut Rng, prof: &Profile, case_partial: bool, tree: &Cla
                     choices.push(Op::Clone { from: i });
                 }
                 choices.push(Op::MakeRef(i));
+                choices.push(Op::MakeRefClone(i));
                 if i > 0 {
                     choices.push(Op::DropClone(i));
                     choices.push(Op::DropClone(i));
